@@ -521,6 +521,109 @@ theorem splitHeader_fold (v : Str) (h : '"' ∉ v) :
 theorem splitHeader_noQuote (v : Str) (h : '"' ∉ v) : splitHeader v = splitOnChar ',' v := by
   simp only [splitHeader, splitOnChar, splitHeader_fold v h]
 
+/-! ### the simple elements of the RFC grammar: `token` and `token;q=qvalue` -/
+
+/-- a text without blanks and without the characters the element syntax gives a meaning to -/
+def Plain (s : Str) : Prop := s ≠ [] ∧ ∀ c ∈ s, isSpace c = false ∧ c ≠ ';' ∧ c ≠ '"'
+
+theorem qSplit_none (a : Str) (h : ';' ∉ a) : qSplit a = (a, none) := by
+  induction a with
+  | nil => rfl
+  | cons c cs ih =>
+    have hc : c ≠ ';' := fun e => h (e ▸ List.mem_cons_self)
+    simp only [qSplit, hc, if_false, ih (fun hh => h (List.mem_cons_of_mem _ hh))]
+
+/-- `q_separator.split(e, 1)` cuts at the first `;q=` -/
+theorem qSplit_q (a r : Str) (h : ';' ∉ a) : qSplit (a ++ ';' :: 'q' :: '=' :: r) = (a, some r) := by
+  induction a with
+  | nil => simp [qSplit, matchQ, dropSpaces]
+  | cons c cs ih =>
+    have hc : c ≠ ';' := fun e => h (e ▸ List.mem_cons_self)
+    simp only [List.cons_append, qSplit, hc, if_false, ih (fun hh => h (List.mem_cons_of_mem _ hh))]
+
+theorem pfields_plain (s : Str) (pb odd : Bool) (cur : Str) (h : ';' ∉ s) :
+    pfields s pb odd cur = [cur.reverse ++ s] := by
+  induction s generalizing pb odd cur with
+  | nil => simp [pfields]
+  | cons c cs ih =>
+    have hc : c ≠ ';' := fun e => h (e ▸ List.mem_cons_self)
+    simp only [pfields, hc, false_and, if_false]
+    rw [ih _ _ _ (fun hh => h (List.mem_cons_of_mem _ hh))]
+    simp
+
+theorem dropWhile_space_append (pad s : Str) (hp : ∀ c ∈ pad, isSpace c = true) :
+    (pad ++ s).dropWhile isSpace = s.dropWhile isSpace := by
+  induction pad with
+  | nil => rfl
+  | cons c cs ih =>
+    simp only [List.cons_append, List.dropWhile, hp c List.mem_cons_self]
+    exact ih (fun d hd => hp d (List.mem_cons_of_mem _ hd))
+
+theorem strip_plain (pad s : Str) (hp : ∀ c ∈ pad, isSpace c = true) (hs : ∀ c ∈ s, isSpace c = false) :
+    strip (pad ++ s) = s := by
+  have h1 : lstrip (pad ++ s) = s := by
+    simp only [lstrip, dropWhile_space_append pad s hp]
+    cases s with
+    | nil => rfl
+    | cons c cs => simp [List.dropWhile, hs c List.mem_cons_self]
+  simp only [strip, h1, rstrip]
+  have : s.reverse.dropWhile isSpace = s.reverse := by
+    cases hr : s.reverse with
+    | nil => rfl
+    | cons c cs =>
+      have hc : c ∈ s := by
+        have : c ∈ s.reverse := hr ▸ List.mem_cons_self
+        exact List.mem_reverse.mp this
+      simp [List.dropWhile, hs c hc]
+  rw [this, List.reverse_reverse]
+
+theorem parseHeader_plain (s : Str) (h : Plain s) : parseHeader s = (s, []) := by
+  have hsemi : ';' ∉ s := fun hh => (h.2 _ hh).2.1 rfl
+  simp only [parseHeader, pfields_plain s false false [] hsemi, List.reverse_nil, List.nil_append,
+    List.map_cons, List.map_nil]
+  have := strip_plain [] s (by simp) (fun c hc => (h.2 c hc).1)
+  simp only [List.nil_append] at this
+  simp [this]
+
+/-- **`token`**: value = the token, no parameters, q = 1 (leading blanks after a comma do not matter) -/
+theorem C17_simple_element (pad name : Str) (hp : ∀ c ∈ pad, isSpace c = true ∧ c ≠ ';') (hn : Plain name) :
+    acceptFromStr (pad ++ name) = ⟨name, []⟩ ∧ (acceptFromStr (pad ++ name)).q = .ok false 1 0 := by
+  have hsemi : ';' ∉ pad ++ name := by
+    intro hh
+    rcases List.mem_append.mp hh with h1 | h1
+    · exact (hp _ h1).2 rfl
+    · exact (hn.2 _ h1).2.1 rfl
+  have hst := strip_plain pad name (fun c hc => (hp c hc).1) (fun c hc => (hn.2 c hc).1)
+  have he : acceptFromStr (pad ++ name) = ⟨name, []⟩ := by
+    simp only [acceptFromStr, qSplit_none _ hsemi, hst, parseHeader_plain name hn, List.map_nil]
+  refine ⟨he, ?_⟩
+  rw [he]
+  simp only [Elem.q, Elem.qRaw, getP, List.find?]
+  decide
+
+/-- **`token;q=qvalue`**: value = the token, the only parameter is q, and the q-value is `float(qvalue)` -/
+theorem C17_simple_element_q (pad name qs : Str) (hp : ∀ c ∈ pad, isSpace c = true ∧ c ≠ ';')
+    (hn : Plain name) (hq : Plain qs) :
+    acceptFromStr (pad ++ name ++ ';' :: 'q' :: '=' :: qs) = ⟨name, [(['q'], .elem qs [])]⟩ ∧
+    (acceptFromStr (pad ++ name ++ ';' :: 'q' :: '=' :: qs)).q = parseQ qs := by
+  have hsemi : ';' ∉ pad ++ name := by
+    intro hh
+    rcases List.mem_append.mp hh with h1 | h1
+    · exact (hp _ h1).2 rfl
+    · exact (hn.2 _ h1).2.1 rfl
+  have hst := strip_plain pad name (fun c hc => (hp c hc).1) (fun c hc => (hn.2 c hc).1)
+  have hsq := strip_plain [] qs (by simp) (fun c hc => (hq.2 c hc).1)
+  simp only [List.nil_append] at hsq
+  have he : acceptFromStr (pad ++ name ++ ';' :: 'q' :: '=' :: qs) = ⟨name, [(['q'], .elem qs [])]⟩ := by
+    simp only [acceptFromStr, qSplit_q _ qs hsemi, hst, hsq, parseHeader_plain name hn,
+      parseHeader_plain qs hq, List.map_nil, setP]
+  refine ⟨he, ?_⟩
+  rw [he]
+  simp [Elem.q, Elem.qRaw, getP, List.find?]
+
+example : Plain "gzip".toList := ⟨by decide, by decide⟩
+example : Plain "0.5".toList := ⟨by decide, by decide⟩
+
 private def els (s : String) : Parsed := acceptElements (some s.toList)
 private def S (s : String) : Str := s.toList
 
